@@ -187,9 +187,9 @@ def run_fetches(ctx, binary, unis, cases):
                 bad.append("references differ: %s" % json.dumps(diff, sort_keys=True))
             if not ok_fsck:
                 bad.append("git fsck --connectivity-only: " + fsck_out)
+            rec["rules"] = sorted({decisions.get(n, "tag-following") for n in set(want) | set(got) if want.get(n) != got.get(n)})
             if bad:
-                rules = sorted({decisions.get(n, "tag-following") for n in set(want) | set(got) if want.get(n) != got.get(n)})
-                ctx.violation(dict(rec, classes=["fetch", "refs" if got != want else "objects"], rules=rules, mismatch=bad, updates=g["updates"],
+                ctx.violation(dict(rec, classes=["fetch", "refs" if got != want else "objects"], mismatch=bad, updates=g["updates"],
                                    what="after the fetch the client is not what the specification (and git fetch) say"))
             ev = {"refs0": c["client_refs"], "odb0": c["client_odb"], "ms": c["specs"], "follow": c["follow"],
                   "stags": [r_ for r_ in c["server_refs"] if r_["name"].startswith("refs/tags/")], "ok": g["ok"],
@@ -294,7 +294,7 @@ def run(ctx):
         rest = [c for c in cs if not interesting(c)]
         ctx.rng.shuffle(inter)
         ctx.rng.shuffle(rest)
-        n = 110 if ctx.thorough else 44
+        n = 80 if ctx.thorough else 44
         cases += inter[: n * 3 // 4] + rest[: n // 4]
         unis[s] = Universe(ctx, s)
     ctx.cov["exhaustive"] = False
